@@ -167,6 +167,7 @@ func dupStress(c *hx.Ctx, prop string) {
 				StuckTotal++
 			}
 		}
+		s.CloseCalled2 = true
 		s.Eng.ForceClose()
 		s.Close()
 		s.actors["c0"] = &actor{started: true, finished: true}
